@@ -43,6 +43,8 @@ def qimg(a):
 
 
 def run(res, tier, seed):
+    import l1b as _l1b
+    _l1b.AUTO_NOISE = 7919 * seed + 13      # random bytes in every record field the spec writer does not set
     rng = common.rng_for(seed, PROP)
     from pygac.correct_tsm_issue import TSM_AFFECTED_INTERVALS_KLM, TSM_AFFECTED_INTERVALS_POD, get_tsm_idx
     # ---------- (b) criterion ----------
